@@ -1,6 +1,7 @@
 """C02 — goals without unknown types are decided definitively, with the answer the program's
 logical meaning dictates."""
 import collections
+import time
 
 from vlib import core, logic, sx
 from vlib import proggen as pg
@@ -41,16 +42,21 @@ CONFIGS = collections.OrderedDict([
 
 
 def run(ctx):
+    t_start = time.time()
     ok, why = ctx.proof_stage("Props.C02", ["eval_correct", "closed_answer_exact"])
+    phase = {"proof": round(time.time() - t_start, 1)}
     if not ok:
         ctx.violation({"kind": "proof", "broken": why}, no_input=True)
         return
     core.build_harness(bins=["solve"])
     rng = ctx.rng
-    progs, items = sc.fragment_items(rng, ctx.n(50, 700), 6, 6, 0)
+    progs, items = sc.fragment_items(rng, ctx.n(36, 700), 6, 6, 0)
     items = [it for it in items if not pg.has_exists(it.goal)]
     solvers = collections.OrderedDict((k, v[0]) for k, v in CONFIGS.items())
+    t0 = time.time()
     mism, perr = sc.run_items(items, solvers=solvers, cpu=ctx.n(4, 6), timeout=ctx.n(600, 3000))
+    phase["solvers"] = round(time.time() - t0, 1)
+    t0 = time.time()
     if mism:
         ctx.violation({"kind": "correspondence", "broken": "generator / .chalk text / lowered program disagree (proggen.dump_matches)",
                        "program": pg.to_text(progs[mism[0][0]]), "dump": mism[0][1][:3000]}, no_input=True)
@@ -159,6 +165,8 @@ def run(ctx):
                                      "oracle_verdicts": dict(verdicts), "outcomes": dict(hist)}
     ctx.cov["inconclusive"] = dict(incon)
     ctx.cov["inconclusive_total"] = sum(incon.values())
+    phase["coq+judge"] = round(time.time() - t0, 1)
+    ctx.cov["phase_s"] = phase
     ctx.cov["known_class_share"] = round(ctx.cov.get("known_class_hits", 0) / total, 4)
 
 
